@@ -59,4 +59,23 @@ MUTANTS += [
     d2 = len(synset2.shortest_path(lcs, simulate_root=simulate_root))
     depth = lcs.max_depth() + 1
     return (2*depth) / (d1 + d2 + 2*depth)""")]},
+    {'name': 'benign-lin-local-for-ic-lcs', 'expect': 'silent', 'property': 'C14',
+     'edits': [E(S, "    return 2 * information_content(lcs, ic) / (ic1 + ic2)", "    ic_lcs = information_content(lcs, ic)\n    return 2 * ic_lcs / (ic1 + ic2)")]},
+    {'name': 'benign-jcn-inline-ic-lcs', 'expect': 'silent', 'property': 'C14',
+     'edits': [E(S, """    lcs = _most_informative_lcs(synset1, synset2, ic)
+    ic_lcs = information_content(lcs, ic)
+    if ic1 == ic2 == ic_lcs == 0:""", """    ic_lcs = information_content(_most_informative_lcs(synset1, synset2, ic), ic)
+    if ic1 == ic2 == ic_lcs == 0:""")]},
+    {'name': 'lin-early-return-before-lcs', 'expect': 'C14-R6',
+     'edits': [E(S, """    lcs = _most_informative_lcs(synset1, synset2, ic)
+    ic1 = information_content(synset1, ic)
+    ic2 = information_content(synset2, ic)
+    if ic1 == 0 or ic2 == 0:
+        return 0.0
+    return 2 * information_content(lcs, ic) / (ic1 + ic2)""", """    ic1 = information_content(synset1, ic)
+    ic2 = information_content(synset2, ic)
+    if ic1 == 0 or ic2 == 0:
+        return 0.0
+    lcs = _most_informative_lcs(synset1, synset2, ic)
+    return 2 * information_content(lcs, ic) / (ic1 + ic2)""")]},
 ]
